@@ -157,20 +157,7 @@ Sprintf(f, i, args, a, out) ==
 
 \* catalogs: engines that are not modelled are represented by finite tables that are part of the specification;
 \* the harness checks every entry against the engine itself (a wrong entry is a framework error, never a verdict)
-JsonCatalog ==     \* text -> [ok, deep value]
-  << [t |-> <<49>>, ok |-> TRUE, d |-> [t |-> "float", f |-> FFin(FALSE, <<1>>, 0)]],                                  \* 1
-     [t |-> <<34, 115, 34>>, ok |-> TRUE, d |-> [t |-> "str", s |-> <<115>>]],                                         \* "s"
-     [t |-> <<91, 49, 44, 34, 97, 34, 44, 110, 117, 108, 108, 93>>, ok |-> TRUE,                                      \* [1,"a",null]
-      d |-> [t |-> "list", e |-> <<[t |-> "float", f |-> FFin(FALSE, <<1>>, 0)], [t |-> "str", s |-> <<97>>], [t |-> "nil"]>>]],
-     [t |-> <<123, 34, 97, 34, 58, 123, 34, 98, 34, 58, 91, 116, 114, 117, 101, 93, 125, 125>>, ok |-> TRUE,          \* {"a":{"b":[true]}}
-      d |-> [t |-> "map", ks |-> <<<<97>>>>, vs |-> <<[t |-> "map", ks |-> <<<<98>>>>,
-                                                    vs |-> <<[t |-> "list", e |-> <<[t |-> "bool", b |-> TRUE]>>]>>]>>]],
-     [t |-> <<110, 117, 108, 108>>, ok |-> TRUE, d |-> [t |-> "nil"]],                                                \* null
-     [t |-> <<116, 114, 117, 101>>, ok |-> TRUE, d |-> [t |-> "bool", b |-> TRUE]],                                    \* true
-     [t |-> <<110, 117, 108>>, ok |-> FALSE, d |-> [t |-> "nil"]],                                                     \* nul
-     [t |-> <<>>, ok |-> FALSE, d |-> [t |-> "nil"]],                                                                  \* (empty)
-     [t |-> <<123>>, ok |-> FALSE, d |-> [t |-> "nil"]],                                                               \* {
-     [t |-> <<91, 49, 44, 93>>, ok |-> FALSE, d |-> [t |-> "nil"]] >>                                                  \* [1,]
+\* JsonCatalog: in Catalogs (generated from spec/catalogs.json, verified against encoding/json by `vh catalog-check`)
 JsonLookup(txt) == LET S == {i \in 1..Len(JsonCatalog) : JsonCatalog[i].t = txt}
                    IN IF S = {} THEN [known |-> FALSE] ELSE [known |-> TRUE, e |-> JsonCatalog[CHOOSE i \in S : TRUE]]
 \* RegexCatalog: in Catalogs (generated from spec/catalogs.json, verified against Go's regexp by `vh catalog-check`)
